@@ -37,7 +37,8 @@ def one(b, rnd, stack, pkt, pd, rules, d, strat, klass, cm=None):
     bits = b2s(pkt)
     # the strategy may be given as the enum member or as its string value (MatchStrategy is a str enum: 'first' == MatchStrategy.FIRST)
     strat_arg = strat if (len(pkt) + len(rules)) % 3 else str.__str__(strat.value)
-    res_ = with_timeout(lambda: cm.compress(Buffer(pkt, len(pkt) * 8), direction=d, match_strategy=strat_arg))
+    d_arg = d if (len(pkt) + len(rules)) % 4 else str.__str__(d.value)        # the direction too may come by value ('Up' / 'Dw')
+    res_ = with_timeout(lambda: cm.compress(Buffer(pkt, len(pkt) * 8), direction=d_arg, match_strategy=strat_arg))
     out = obs_bits(res_)
     from schc_run import bytes_cm_compress
     bytes_cm_compress(b, klass, stack, pkt, d, strat == MatchStrategy.FIRST, rules, res_)
